@@ -1575,8 +1575,18 @@ func trCall(c *ast.CallExpr, en env) []val {
 			var out []val
 			for _, r := range o.results {
 				if r == "@self" {
-					// the method returns (a view of) its receiver
-					out = append(out, trExpr(c.Fun.(*ast.SelectorExpr).X, en))
+					// the method returns a value represented like its receiver (a new object: it
+					// gets a place of its own, with what is known about the receiver)
+					rv := trExpr(c.Fun.(*ast.SelectorExpr).X, en)
+					np := fresh("path")
+					if b, ok := en.bound[rv.path]; ok {
+						en.bound[np] = b
+					}
+					if en.isNil[rv.path] {
+						en.isNil[np] = true
+					}
+					rv.path = np
+					out = append(out, rv)
 					continue
 				}
 				argVal := func(tok string) val {
@@ -1870,10 +1880,19 @@ func trBool(e ast.Expr, en env) string {
 		}
 	case *ast.BinaryExpr:
 		switch v.Op {
-		case token.LAND:
-			return "(" + trBool(v.X, en) + " && " + trBool(v.Y, en) + ")"
-		case token.LOR:
-			return "(" + trBool(v.X, en) + " || " + trBool(v.Y, en) + ")"
+		case token.LAND, token.LOR:
+			// as a value (not a branch condition) both operands are translated unconditionally:
+			// the right one must not have an effect that Go would skip
+			l := trBool(v.X, en)
+			n0, s0 := len(oracleEffects), len(pendingState)
+			r := trBool(v.Y, en)
+			if len(oracleEffects) != n0 || len(pendingState) != s0 {
+				fail(v.Pos(), "the right operand of %s has an effect and the expression is used as a value", v.Op)
+			}
+			if v.Op == token.LAND {
+				return "(" + l + " && " + r + ")"
+			}
+			return "(" + l + " || " + r + ")"
 		case token.EQL, token.NEQ, token.LSS, token.LEQ, token.GTR, token.GEQ:
 			return "(decide " + trProp(v, en) + ")"
 		}
@@ -2347,6 +2366,15 @@ func trAssign(a *ast.AssignStmt, en env) env {
 						break
 					}
 					fieldOf(x.kd.s, lv.Sel.Name, a.Pos())
+					if x.path != "" {
+						for other, ov := range en.vars {
+							if other != id.Name && !strings.HasPrefix(other, "§") && ov.kd.k == "ptr" && ov.path == x.path {
+								// y := x; x.f = v: Go changes what y points at too; the translation keeps
+								// assigned fields per variable
+								fail(a.Pos(), "assignment through %s while %s holds the same pointer", id.Name, other)
+							}
+						}
+					}
 					v := vals[i]
 					switch v.kd.k {
 					case "ptr", "status", "mresp", "oneof", "nilptr":
